@@ -156,7 +156,7 @@ def batch(prop, tier, sd):
             d = ds.random_decl(rng, 'f%04d' % i, nmin=3, nmax=6 if quick else 7,
                                p_fallible=0.5 if prop != 'C07' else 0.3, p_async=0.6,
                                zero_in_async=rng.choice([0, 1, 2, 2]), constructs=(i % 2 == 0))
-            if i % 4 == 1:
+            if i % 2 == 1:
                 d['pkg_ctx'] = True     # the user's package declares `ctx` at package level: the injector's parameter is ctx0
             if i % 3 == 0:
                 # a provider that takes the context itself (the injector then has a user-supplied ctx parameter)
@@ -167,6 +167,11 @@ def batch(prop, tier, sd):
                     p['requires'].insert(rng.randint(0, len(p['requires'])), 'ctx')
             out.append(d)
     out = [d for d in out if ds.accepts(d)]
+    if prop in ('C06', 'C07', 'C08'):
+        # a third of ALL fault-mode packages declare `ctx` at package level (the injector's parameter is then ctx0)
+        for k_, d_ in enumerate(out):
+            if k_ % 3 == 2:
+                d_['pkg_ctx'] = True
     # several injectors in one file of one package (one generator invocation, one shared name pool)
     if prop in ('C01', 'C02', 'C03', 'C06', 'C08'):
         ng = 6 if quick else 40
